@@ -1060,6 +1060,9 @@ impl Property for C15 {
         ]
     }
 
+    fn exhaustive_is_whole_domain(&self, _tier: Tier) -> bool {
+        true
+    }
     fn exhaustive_claim(&self, tier: Tier) -> Option<String> {
         Some(format!(
             "Complete: argument domains of all checked constructors of the 8 bit (256 values x 6 types) and 16 bit (65536 x 2 types) bounded types, Ipv6FlowLabel over 0..2^21 and u32::MAX-65535..=u32::MAX (plus stride {} in \
